@@ -293,6 +293,17 @@ fn install_hook() {
                 Mode::Free => {}
             }
         }
+        // stress mode: now and then a holder keeps the file table a little longer, so that the others really queue up
+        // behind it inside the lock (a queued writer makes later readers wait, also those at places without a hook)
+        if let (Mode::Stress(seed), Event::VfsReadHeld | Event::VfsWriteHeld) = (st.mode, e) {
+            let n = st.counts.values().sum::<u64>();
+            let r = fnv64(&[seed.to_le_bytes(), n.to_le_bytes(), [7u8; 8]].concat());
+            if r % 4 == 0 {
+                drop(st);
+                std::thread::sleep(Duration::from_micros(100 + r % 2500));
+                st = s.st.lock().unwrap_or_else(|p| p.into_inner());
+            }
+        }
         // lock model updates (after the acquisition has really happened / been released)
         match e {
             Event::VfsWriteHeld => {
@@ -563,7 +574,8 @@ fn send_task(s: &mut Session, k: TaskKind, version: &mut i64) -> Option<u64> {
     Some(match k {
         TaskKind::Diagnostics => {
             *version += 1;
-            s.did_change("/ws/a.td", *version, &format!("{}// v{}\n", A_TEXT, version));
+            // (the edit brings a file into the workspace that the server has never told the editor about)
+            s.did_change("/ws/a.td", *version, &format!("{}include \"c.td\"\n// v{}\n", A_TEXT, version));
             return None;
         }
         TaskKind::Hover => s.request("textDocument/hover", json!({"textDocument": td, "position": pos})),
@@ -832,8 +844,9 @@ fn squash_cycle(c: &str) -> String {
     out
 }
 
-fn stress(unit: u64, ctx: &mut Ctx) {
+fn stress(unit: u64, rep: u64, ctx: &mut Ctx) {
     install_hook();
+    let unit = unit * 16 + rep; // every repetition is a session of its own
     let seed = ctx.seed ^ unit.wrapping_mul(0x9E37);
     new_epoch();
     reset(Mode::Stress(seed));
@@ -855,9 +868,17 @@ fn stress(unit: u64, ctx: &mut Ctx) {
         match rng.below(10) {
             0..=3 => {
                 version += 1;
-                let t = format!("{}// edit {}\n", big, version);
+                // every third edit brings a file into the workspace that the server has never seen before
+                let t = if version % 3 == 0 {
+                    let name = format!("x{}.td", version);
+                    sess.write_disk(&format!("/ws/{}", name), &format!("class X{} {{ int xf = {}; }}\ndef xd{} : X{};\n", version, version, version, version));
+                    history.push(format!("didChange(a)+include {}", name));
+                    format!("{}include \"{}\"\n// edit {}\n", big, name, version)
+                } else {
+                    history.push("didChange(a)".to_string());
+                    format!("{}// edit {}\n", big, version)
+                };
                 sess.did_change("/ws/a.td", version, &t);
-                history.push("didChange(a)".to_string());
             }
             4 => {
                 sess.did_open("/ws/b.td", B_TEXT);
@@ -1291,7 +1312,7 @@ impl Check for C08 {
         "C08"
     }
     fn units(&self, tier: Tier, _seed: u64) -> u64 {
-        scenarios(tier).len() as u64 + tier.pick(8, 64) + tier.pick(12, 48)
+        scenarios(tier).len() as u64 + tier.pick(16, 64) + tier.pick(12, 48)
     }
     fn run_unit(&self, unit: u64, ctx: &mut Ctx) {
         let sc = scenarios(ctx.tier);
@@ -1307,9 +1328,9 @@ impl Check for C08 {
                 ctx.features.insert(format!("event:{}", k), *v);
             }
             ctx.metric_max("max_live_snapshots", st.max_live as f64);
-        } else if (unit as usize) < sc.len() + ctx.tier.pick(8, 64) {
-            for _ in 0..ctx.tier.pick(2, 6) {
-                stress(unit, ctx);
+        } else if (unit as usize) < sc.len() + ctx.tier.pick(16, 64) {
+            for rep in 0..ctx.tier.pick(5, 6) {
+                stress(unit, rep, ctx);
             }
         } else {
             for k in 0..ctx.tier.pick(3, 6) {
@@ -1346,7 +1367,7 @@ impl Check for C08 {
                 _ => {}
             }
         } else if let Some(u) = case["unit"].as_u64() {
-            stress(u, ctx);
+            stress(u / 16, u % 16, ctx);
         }
     }
     fn rule(&self) -> String {
